@@ -273,6 +273,30 @@ theorem liveOK_alignGuardDrop {s s' : State} {n : Nat} (hl : Mem.LiveOK cfg s) (
   · exact hl
   · exact liveOK_movePos hl hcur hc (align_pos_dir hn hp)
 
+/-- the position of a chunk that is not the current one does not matter for `LiveOK` -/
+theorem liveOK_moveOther {s : State} {j p : Nat} (hl : Mem.LiveOK cfg s) (hne : s.cur ≠ .chunk j) :
+    Mem.LiveOK cfg (setPos s j p) := by
+  refine ⟨hl.aligned, ?_, hl.disjoint⟩
+  intro b hb hs
+  obtain ⟨i, k, ck, h1, h2, h3, h4, h5⟩ := hl.placed b hb hs
+  by_cases hkj : k = j
+  · subst hkj
+    have hki : k ≠ i := fun e => hne (e ▸ h1)
+    exact ⟨i, k, _, h1, h2, Mem.setPos_getElem?_self h3 p, h4, fun e => absurd e hki⟩
+  · exact ⟨i, k, ck, h1, h2, (Mem.setPos_getElem?_ne hkj p).trans h3, h4, h5⟩
+
+theorem liveOK_alignChunkAt {s s' : State} {n : Nat} {st : Cur} (hl : Mem.LiveOK cfg s)
+    (h : alignChunkAt cfg s n st = .ok s') : Mem.LiveOK cfg s' := by
+  rcases alignChunkAt_cases h with rfl | ⟨j, c, p, _, hne, _, _, rfl⟩
+  · exact hl
+  · exact liveOK_moveOther hl hne
+
+theorem alignChunkAt_stable {s s' : State} {n : Nat} {st : Cur} (h : alignChunkAt cfg s n st = .ok s') :
+    Stable s s' := by
+  rcases alignChunkAt_cases h with rfl | ⟨j, c, p, _, _, _, _, rfl⟩
+  · exact Stable.refl _
+  · exact Stable.setPos _ _ _
+
 theorem alignTo_stable {s s' : State} {n : Nat} (h : alignTo cfg s n = .ok s') : Stable s s' := by
   rcases alignTo_cases h with rfl | ⟨i, c, p, _, _, _, rfl⟩
   · exact Stable.refl _
